@@ -97,8 +97,12 @@ func runOneWire(g *hx.Gen, w wireCfg, pki *PKI) (*wireResult, error) {
 	}
 	vhostPort := hx.FreePort(addrServer)
 	kcpPort := 0
+	quicPort := 0
 	if w.proto == "kcp" {
 		kcpPort = hx.FreeUDPPort(addrServer)
+	}
+	if w.proto == "quic" {
+		quicPort = hx.FreeUDPPort(addrServer)
 	}
 	s, err := hx.StartServer(addrServer, func(c *v1.ServerConfig) {
 		c.Auth.Token = tok
@@ -108,6 +112,7 @@ func runOneWire(g *hx.Gen, w wireCfg, pki *PKI) (*wireResult, error) {
 		c.Transport.TLS.Force = w.force
 		c.VhostHTTPPort = vhostPort
 		c.KCPBindPort = kcpPort
+		c.QUICBindPort = quicPort
 		if w.certMode >= 1 {
 			c.Transport.TLS.CertFile, c.Transport.TLS.KeyFile = pki.ServerCert, pki.ServerKey
 		}
@@ -120,8 +125,8 @@ func runOneWire(g *hx.Gen, w wireCfg, pki *PKI) (*wireResult, error) {
 	}
 	defer s.Close()
 	var relay observer
-	if w.proto == "kcp" {
-		relay, err = StartUDPRelay(addrRelay, net.JoinHostPort(addrServer, fmt.Sprint(kcpPort)))
+	if w.proto == "kcp" || w.proto == "quic" {
+		relay, err = StartUDPRelay(addrRelay, net.JoinHostPort(addrServer, fmt.Sprint(kcpPort+quicPort)))
 	} else {
 		relay, err = StartRelay(addrRelay, net.JoinHostPort(addrServer, fmt.Sprint(s.Port)))
 	}
@@ -196,7 +201,7 @@ func runOneWire(g *hx.Gen, w wireCfg, pki *PKI) (*wireResult, error) {
 	}
 	defer c.Close()
 
-	effTLS := (completed.Transport.TLS.Enable != nil && *completed.Transport.TLS.Enable) || w.proto == "wss"
+	effTLS := (completed.Transport.TLS.Enable != nil && *completed.Transport.TLS.Enable) || w.proto == "wss" || w.proto == "quic"
 	expectUp := !(s.Cfg.Transport.TLS.Force && !effTLS) && w.proto != "wss"
 	wait := 3 * time.Second
 	if !expectUp {
@@ -318,6 +323,9 @@ func lattice(g *hx.Gen, n int) []wireCfg {
 		wireCfg{proto: "tcp", mux: true, enc: true, venc: false},             // control cipher under mux, visitor clear
 		wireCfg{proto: "kcp", mux: true},                                     // clear over kcp
 		wireCfg{proto: "kcp", tls: true, custom: true, force: true},          // TLS over kcp
+		wireCfg{proto: "tcp", enc: true, venc: true, mux: true},              // both layers on, clear transport, mux
+		wireCfg{proto: "quic"},                                               // quic is always TLS, even with tls.enable=false
+		wireCfg{proto: "quic", tls: true, certMode: 2, force: true},          // quic, mutual certificates
 	)
 	for len(out) < n {
 		w := wireCfg{proto: "tcp"}
@@ -326,6 +334,8 @@ func lattice(g *hx.Gen, n int) []wireCfg {
 			w.proto = "websocket"
 		case 2:
 			w.proto = "kcp"
+		case 3:
+			w.proto = "quic"
 		}
 		w.tls = g.Intn(2) == 0
 		if w.tls {
@@ -354,8 +364,8 @@ func runWire(cfg *hx.RunCfg) error {
 		"Definition NHIDDENALL := Eval vm_compute in count_if wire_hidden_all cases.\nPrint NHIDDENALL.\n" +
 		"Definition NREJECTED := Eval vm_compute in count_if wire_rejected cases.\nPrint NREJECTED.\n"}
 	n := cfg.N
-	if n < 15 {
-		n = 15
+	if n < 18 {
+		n = 18
 	}
 	implFail := []map[string]string{}
 	dist := map[string]int{}
@@ -380,11 +390,11 @@ func runWire(cfg *hx.RunCfg) error {
 		}
 		cs := fmt.Sprintf("CWire %s %s %s %s", r.cfgCoq, r.hist, hx.List(r.observed), hx.Bool(r.up))
 		cf.Cases = append(cf.Cases, cs)
-		if w.proto != "kcp" {
+		if w.proto != "kcp" && w.proto != "quic" {
 			cf.Cases = append(cf.Cases, fmt.Sprintf("CFirstByte %s %d", r.cfgCoq, r.first))
 		}
 		distinct[w.String()] = true
-		dist[fmt.Sprintf("tls=%v up=%v visible=%d", w.tls || w.tlsNil || w.proto == "wss", r.up, len(r.observed))]++
+		dist[fmt.Sprintf("tls=%v up=%v visible=%d", w.tls || w.tlsNil || w.proto == "wss" || w.proto == "quic", r.up, len(r.observed))]++
 		dist["proto="+w.proto]++
 		if len(samples) < 4 {
 			samples = append(samples, w.String()+" => visible "+strings.Join(r.observed, ",")+fmt.Sprintf(" first=%d bytes=%d", r.first, r.bytes))
@@ -397,11 +407,19 @@ func runWire(cfg *hx.RunCfg) error {
 					"case": w.String()})
 			}
 		}
-		effTLS := w.tls || w.tlsNil || w.proto == "wss"
+		effTLS := w.tls || w.tlsNil || w.proto == "wss" || w.proto == "quic"
 		if effTLS && len(r.observed) > 0 {
 			implFail = append(implFail, map[string]string{"key": "clear-under-tls",
 				"what": "markers readable on the path although the client-server transport uses TLS: " + strings.Join(r.observed, ","),
 				"case": w.String()})
+		}
+		if !effTLS && r.up && w.enc && w.venc {
+			for _, a := range r.observed {
+				if a == "(APayload 31)" || a == "(APayload 32)" {
+					implFail = append(implFail, map[string]string{"key": "visitor-payload-clear-despite-encryption",
+						"what": "payload marker " + a + " of an stcp tunnel whose proxy and visitor both set transport.useEncryption=true readable on the path", "case": w.String()})
+				}
+			}
 		}
 		if !effTLS && r.up && w.enc {
 			for _, a := range r.observed {
